@@ -126,17 +126,23 @@ pub fn run_c04(ctx: &Ctx) -> i32 {
 // ---------------------------------------------------------------------------------------------
 // C05: caller, address, block, funds
 
-fn block_starts(world: &mut World, genesis: &StartState) -> Vec<StartState> {
+fn block_starts(ctx: &Ctx, world: &mut World, genesis: &StartState) -> Vec<StartState> {
     let mut v = vec![genesis.clone()];
     v.push(advance_block(world, genesis, "after-update_block"));
-    // set_block with changed height, time and chain id
-    world.app.set_block(genesis.block.clone());
-    *world.app.storage_mut() = genesis.storage.clone();
-    let nb = BlockInfo { height: 777, time: Timestamp::from_nanos(genesis.block.time.nanos() + 123_456_789_000), chain_id: "other-chain".into() };
-    world.app.set_block(nb.clone());
-    v.push(StartState { name: "after-set_block".into(), storage: world.app.storage().clone(), block: world.app.block_info(), mstate: genesis.mstate.clone() });
-    if world.app.block_info() != nb {
-        // reported by the caller through the EntryCtx comparison anyway (block is part of every trace record)
+    // set_block with changed height, time and chain id; and with the SAME height but another time and
+    // chain id. The block contracts must be told is the block that was set (not whatever the App
+    // says its block is), so the start states carry the former.
+    for (name, nb) in [
+        ("after-set_block", BlockInfo { height: 777, time: Timestamp::from_nanos(genesis.block.time.nanos() + 123_456_789_000), chain_id: "other-chain".into() }),
+        ("after-set_block-at-the-same-height", BlockInfo { height: genesis.block.height, time: Timestamp::from_nanos(genesis.block.time.nanos() + 3_600_000_000_000), chain_id: "same-height-chain".into() }),
+    ] {
+        world.app.set_block(genesis.block.clone());
+        *world.app.storage_mut() = genesis.storage.clone();
+        world.app.set_block(nb.clone());
+        if world.app.block_info() != nb {
+            ctx.violation("c05:EntryCtx:set_block-not-adopted", json!({"engine": "tree", "what": "the block given to set_block is not the App's current block afterwards", "set": format!("{:?}", nb), "current": format!("{:?}", world.app.block_info())}));
+        }
+        v.push(StartState { name: name.into(), storage: world.app.storage().clone(), block: nb, mstate: genesis.mstate.clone() });
     }
     v
 }
@@ -146,7 +152,7 @@ pub fn run_c05(ctx: &Ctx) -> i32 {
     let sampler = Sampler::new(4, ctx.seed);
     let mut st = TreeStats::default();
     let starts = build_starts(ctx, &homes, &mut st);
-    let blocks = with_world(false, |w| block_starts(w, &starts.genesis));
+    let blocks = with_world(false, |w| block_starts(ctx, w, &starts.genesis));
     let (funds_hi, core_hi, rich_hi) = ctx.tier.pick((3, 5, 3), (4, 6, 4));
     st = st.merge(drive(ctx, &Funds::new(1, funds_hi), &[starts.genesis.clone()], false, &homes, &sampler));
     st = st.merge(drive(ctx, &Funds::new(1, funds_hi - 1), &blocks[1..], false, &homes, &sampler));
@@ -753,7 +759,9 @@ pub fn replay(ctx: &Ctx, case: &Value) {
     let mut st = TreeStats::default();
     let starts = build_starts(ctx, &|_| true, &mut st);
     let mut all = all_starts(&starts);
-    all.extend(with_world(false, |w| block_starts(w, &starts.genesis)));
+    // (whether set_block adopts its block is C05's business: judged there, not here)
+    let quiet_c05 = Ctx::new("C05", ctx.tier);
+    all.extend(with_world(false, |w| block_starts(&quiet_c05, w, &starts.genesis)));
     let start = match all.iter().find(|s| s.name == start_name) {
         Some(s) => s.clone(),
         None => {
